@@ -134,7 +134,7 @@ def _resume_job(case):
     alg = params['algorithm_params']
     if case['kind'] == 'te':
         unit = alg['dt'] * alg['N_steps']
-        n = int(round(params['final_time'] / unit))
+        n = int(round((params['final_time'] - alg.get('start_time', 0.0)) / unit))
     else:
         nsc = int(alg.get('N_sweeps_check', 1))
         unit, n = float(nsc), alg['max_sweeps'] // nsc
